@@ -27,8 +27,8 @@ EXTENDS Sem
 \* class names and display names, by kind
 ClassName(k) == CASE k = "PL" -> "PlackettLuce" [] k = "BTF" -> "BradleyTerryFull" [] k = "BTP" -> "BradleyTerryPart"
                   [] k = "TMF" -> "ThurstoneMostellerFull" [] k = "TMP" -> "ThurstoneMostellerPart"
-Display(k)   == CASE k = "PL" -> "Plackett-Luce" [] k = "BTF" -> "Bradley-Terry Full" [] k = "BTP" -> "Bradley-Terry Part"
-                  [] k = "TMF" -> "Thurstone-Mosteller Full" [] k = "TMP" -> "Thurstone-Mosteller Part"
+Display(k)   == CASE k = "PL" -> "Plackett-Luce" [] k = "BTF" -> "Bradley-Terry Full Pairing" [] k = "BTP" -> "Bradley-Terry Partial Pairing"
+                  [] k = "TMF" -> "Thurstone-Mosteller Full Pairing" [] k = "TMP" -> "Thurstone-Mosteller Partial Pairing"
 \* the registry lists the five classes in this order
 ModelsOrder == <<"PL", "BTF", "BTP", "TMF", "TMP">>
 
